@@ -32,6 +32,8 @@ var zzValidStatements = []string{
 	"sink(mu(2));",
 	"leaf(mu(1));",
 	"const_assert 2 > 1;",
+	"const zc0 = 6; var zq: array<i32, zc0>; zq[5] = 1; const_assert zc0 == 6;",
+	"const zf = -1.0; const zg = -2.0; const_assert zf > zg;",
 	"const_assert (1 + 1) > 1;",
 	"const_assert(2 > 1);",
 	";",
